@@ -19,7 +19,7 @@ structure DS where
   ids : List String
   meas : List String
   rows : List Row
-  deriving Repr, Inhabited
+  deriving Repr, Inhabited, DecidableEq
 
 def DS.comps (d : DS) : List String := d.ids ++ d.meas
 def DS.keys (d : DS) : List (List Value) := d.rows.map (·.key d.ids)
@@ -100,9 +100,12 @@ def outName (meas : List String) (out : Option String) (m : String) : String :=
   | some n, [_] => n
   | _, _ => m
 
-def mapmRow (d : DS) (body : SExpr) (out : Option String) (r : Row) : R (Option Row) := do
-  let ms ← d.meas.mapM (fun m => do pure (outName d.meas out m, ← evalS r (r.get m) .null body))
-  pure (some (r.proj d.ids ++ ms))
+/-- the measures of the output row of `mapm`: `body` applied to every measure of `r`. -/
+def measVals (d : DS) (body : SExpr) (out : Option String) (r : Row) : R (List (String × Value)) :=
+  d.meas.mapM (fun m => (evalS r (r.get m) .null body).map (fun v => (outName d.meas out m, v)))
+
+def mapmRow (d : DS) (body : SExpr) (out : Option String) (r : Row) : R (Option Row) :=
+  (measVals d body out r).map (fun ms => some (r.proj d.ids ++ ms))
 
 def subset (xs ys : List String) : Bool := xs.all ys.contains
 
@@ -110,16 +113,17 @@ def subset (xs ys : List String) : Bool := xs.all ys.contains
 def partner (small : DS) (rb : Row) : Option Row :=
   small.rows.find? (fun rs => rs.key small.ids == rb.key small.ids)
 
+/-- the measures of the output row of `zip` for a matched pair (`l` = left operand's row). -/
+def zipVals (ms : List String) (body : SExpr) (out : Option String) (l r : Row) : R (List (String × Value)) :=
+  ms.mapM (fun m => (evalS [] (l.get m) (r.get m) body).map (fun v => (outName ms out m, v)))
+
 def zipRow (big small : DS) (bigIsLeft : Bool) (ms : List String) (body : SExpr) (out : Option String)
     (rb : Row) : R (Option Row) :=
   match partner small rb with
-  | none => pure none
-  | some rs => do
-      let vals ← ms.mapM (fun m => do
-        let l := if bigIsLeft then rb.get m else rs.get m
-        let r := if bigIsLeft then rs.get m else rb.get m
-        pure (outName ms out m, ← evalS [] l r body))
-      pure (some (rb.proj big.ids ++ vals))
+  | none => .ok none
+  | some rs =>
+      (zipVals ms body out (if bigIsLeft then rb else rs) (if bigIsLeft then rs else rb)).map
+        (fun vals => some (rb.proj big.ids ++ vals))
 
 def renameOf (m : List (String × String)) (n : String) : String := (m.lookup n).getD n
 
